@@ -3,6 +3,20 @@ import json, os
 VERIF = os.path.dirname(os.path.dirname(os.path.abspath(__file__)))
 PROOF = "proof"
 CHECKS = {
+ "C18": dict(
+    text="Refinement specification in Lean 4 (a batch tensor is the list of its elements; supported batch operations are the ordinary "
+         "operations element by element; elem_add/elem_mul/elem_getitem, batch size preserved) so that the C02/C03 theorems transfer to "
+         "every element (addB_dense, mulB_dense); the list of functions that reject batch tensors is an obligation over the table "
+         "re-extracted from /repo on every run. That the separate batched code paths refine to this specification is established by "
+         "the correspondence: every batch element of +, * and indexing results is compared core-for-core with the non-batch Lean model "
+         "on that element, and torch(), construction (with/without rank limits), scalar ops, rounding, orthogonalisation, batch-mode "
+         "selection element by element against the ordinary operation; guarded functions must raise.",
+    note="The theorems are about the refinement specification, which is definitional; the strength of this check is the element-wise "
+         "correspondence (sampling) and the source-derived guard table. Trusted: Lean kernel + standard axioms; harness glue; the "
+         "non-batch implementation as reference for rank-limited construction and rounding. The batched `*` picks between its two "
+         "equivalent layouts with a mode size shifted by the batch dimension (counted, dense result checked).",
+    tech="Lean 4 refinement specification + source-derived obligation + element-wise differential correspondence against the non-batch model",
+    ref="§3 C18"),
  "C19": dict(
     text="Lean 4 theorems: the index interleaving of the TT-matrix constructor is undone by torch() for every factorisation into any number "
          "of factors; the Kronecker routines accept exactly all-ranks-1, square-block matrices (the repaired inverted test) and reject "
